@@ -861,7 +861,16 @@ def run_file(ctx, nix, np, fi, spec, rep):
             for _ in range(n):
                 for _try in range(6):
                     name, fn = rrng.choice(INJ)
-                    lab = fn(G)
+                    try:
+                        lab = fn(G)
+                    except Exception:
+                        # an entity that lost its id / date / name through the FIRST injection of this round can no longer be used by a
+                        # second one (e.g. as the target of a new link): that is the harness's sequence, not a validator event
+                        if any(d.startswith(("missing_id", "missing_date", "property_missing", "feature_missing", "missing_name")) for d in done):
+                            ctx.count("second_injection_not_applicable_after_missing_attribute")
+                            lab = None
+                            break
+                        raise
                     if lab is not None:
                         done.append("%s:%s" % (name, lab))
                         okinds.append(lab)
